@@ -25,7 +25,7 @@ import props
 import pyleg
 
 KIND = "c17tool"
-N_CASES = {"quick": 600, "thorough": 4000}  # half averageoverbed cases (6 invocations each), half valuesoverbed
+N_CASES = {"quick": 600, "thorough": 12000}  # half averageoverbed cases (6 invocations each), half valuesoverbed
 THREADS = [1, 2, 3, 4, 8, 16]
 TOL = 5.01e-4
 CHROMS = ["chr1", "chr10", "chr2", "chrX", "a", "Z", "chrM"]
